@@ -36,6 +36,8 @@ Clauses(c) ==
               \cup bad("C16.columns", o.cols_ok /\ o.same_index)
               \cup bad("C16.finite", o.finite)
               \* fail-stop: nothing at or after the failed solve, everything before it unchanged
+              \* a run that reports no failure covers the whole duration (its last row lies within one hydraulic / report step of it)
+              \cup bad("C16.complete", failed \/ (Len(f) > 0 /\ f[Len(f)].t + (IF c.Rep > c.H THEN c.Rep ELSE c.H) > c.Dur))
               \cup bad("C16.fail_stop", ~failed \/ \A k \in DOMAIN f : f[k].t < c.tfail)
               \cup bad("C16.prefix_equal", Len(f) = Len(Prefix) /\ \A k \in DOMAIN f : RowEq(f[k], Prefix[k]))))
 Init == i = 0 /\ viol = {}
